@@ -58,6 +58,25 @@ def determineVersion (caps : List Bytes) (pref : Bytes) : Option Ver :=
       (if hasCap caps Gen.Netconf.v1Dot1Cap then some .v11 else none)
     else some sel
 
+/-- what the user asked for -/
+inductive Pref | none | p10 | p11
+  deriving DecidableEq, Repr
+
+/-- `PreferredVersion` as the option stores it -/
+def Pref.bytes : Pref → Bytes
+  | .none => []
+  | .p10 => Gen.Netconf.V1Dot0
+  | .p11 => Gen.Netconf.V1Dot1
+
+/-- The property's table, written from its statement: 1.1 exactly when the server advertises it
+and the user did not ask for 1.0; 1.0 when that is all the server offers, or it is what the user
+asked for and the server offers it; failure when neither base capability is advertised or the
+required one is missing. -/
+def specVersion (has10 has11 : Bool) : Pref → Option Ver
+  | .none => if has11 then some .v11 else if has10 then some .v10 else none
+  | .p10 => if has10 then some .v10 else none
+  | .p11 => if has11 then some .v11 else none
+
 /-- `options.WithNetconfPreferredVersion`: only the two version strings are accepted
 (`false` = `ErrBadOption`, the driver is not constructed). -/
 def prefOptionOK (s : Bytes) : Bool := s == Gen.Netconf.V1Dot0 || s == Gen.Netconf.V1Dot1
